@@ -358,7 +358,33 @@ def case_volume(ctx, W, outs, nt):
     rng, flw, ds, n, seq, res, shape = ctx.rng, W["flw"], W["ds"], W["n"], W["seq"], W["res"], W["shape"]
     o_np = outs_np(outs, n, flw, rng)
     hdt = rng.choice([np.float32, np.float64])
-    hand_np = np.array([rng.randint(0, 14) / 4 for _ in range(n)], dtype=hdt)
+    # HAND field: the property quantifies over the field as handed in.  `FlwdirRaster.hand()` on a raw (not
+    # hydrologically conditioned) DEM yields cells BELOW their drain (negative values) and exact zeros on the
+    # drain itself, so both signs and zeros are generated; all values stay multiples of 1/4 (exact in float32).
+    hfam = rng.choice(["nonneg", "signed", "signed", "raw-dem", "raw-dem", "below-drain"])
+    if hfam == "nonneg":
+        hl = [Fraction(rng.randint(0, 14), 4) for _ in range(n)]
+    elif hfam == "signed":
+        hl = [Fraction(rng.choice([0, 0, rng.randint(-14, 14)]), 4) for _ in range(n)]
+    elif hfam == "below-drain":  # (almost) every cell at or below drain level: max(0, .) never clips
+        hl = [Fraction(-rng.randint(0, 14), 4) if rng.random() < 0.9 else Fraction(rng.randint(0, 14), 4) for _ in range(n)]
+    else:
+        # elevation minus the elevation of the first drain cell on the downstream path (0 if there is none),
+        # for a raw random elevation (depressions: cells below their drain) and a random / outlet-pixel drain
+        el = [rng.randint(0, 14) for _ in range(n)]
+        pd = rng.choice([0.15, 0.4])
+        drain = [ds[i] != n and (ds[i] == i or i in outs or rng.random() < pd) for i in range(n)]
+        hl = []
+        for i in range(n):
+            j, k = i, 0
+            while ds[i] != n and not drain[j] and ds[j] != j and k <= n:
+                j, k = ds[j], k + 1
+            hl.append(Fraction(el[i] - el[j], 4) if ds[i] != n and drain[j] else Fraction(0))
+    ctx.count("volume-hand:" + hfam)
+    lab = [i for i in range(n) if ds[i] != n]
+    ctx.count("volume-hand-negative-cells:" + ("yes" if any(hl[i] < 0 for i in lab) else "no"))
+    ctx.count("volume-hand-zero-cells:" + ("yes" if any(hl[i] == 0 for i in lab) else "no"))
+    hand_np = np.array([float(h) for h in hl], dtype=hdt)
     kind = rng.choice(["default", "f32", "f64"])
     if kind == "default":
         depths = np.arange(0.5, 3.0, 0.5, dtype=np.float32)
@@ -393,6 +419,17 @@ def case_volume(ctx, W, outs, nt):
     impl_vol = [Fraction(float(x)) for x in np.asarray(vol).ravel().tolist()]
     miss = [outs[k % nout] == n for k in range(len(impl_vol))]
 
+    # the property's sum clause evaluated directly on the implementation's output, per depth row: the entries
+    # that are the last one of their pixel add up to sum(area * max(0, depth - hand)) over the labelled cells
+    last = [k for k, o in enumerate(outs) if o != n and o not in outs[k + 1:]]
+    dep_q = [Fraction(float(x)) for x in np.asarray(depths).ravel().tolist()]
+    tot_bad = []
+    for r, dq in enumerate(dep_q):
+        tot_vol = sum(impl_vol[r * nout + k] for k in last)
+        tot_cells = sum(area[i] * max(Fraction(0), dq - hl[i]) for i in range(n) if impl_map[i] != 0)
+        if tot_vol != tot_cells:
+            tot_bad.append((str(dq), str(tot_vol), str(tot_cells)))
+
     def norm(v):  # model values are scaled by Dh, except the untouched -9999 of missing outlets
         return [Fraction(x) if miss[k] else Fraction(x, Dh) for k, x in enumerate(v)]
 
@@ -406,6 +443,9 @@ def case_volume(ctx, W, outs, nt):
         if impl_vol != norm(a["spec.vol"]):
             fs.append({"kind": "spec", "what": "flood volume differs from the sum of area*max(0,depth-hand) over the labelled cells",
                        "impl": [str(x) for x in impl_vol], "spec": [str(x) for x in norm(a["spec.vol"])]})
+        if tot_bad:
+            fs.append({"kind": "spec", "what": "flood volumes do not add up to the total over the labelled cells "
+                       f"(depth, sum of volumes, sum over cells): {tot_bad[:3]}"})
         if impl_map != a["model.map"] or impl_vol != norm(a["model.vol"]):
             fs.append({"kind": "model", "what": "ucat_volume: implementation != Lean model",
                        "impl": [str(x) for x in impl_vol], "model": [str(x) for x in norm(a["model.vol"])]})
